@@ -9,7 +9,7 @@ from util import call, quiet
 
 REQUIRED_THEOREMS = ['Usid.C17.split_join', 'Usid.C17.layout', 'Usid.C17.no_overwrite', 'Usid.C17.oversize_skipped',
                      'Usid.C17.no_temp_left']
-RULE = ('generator datasets of integer-valued real data (int32 / float32 / float64), any dimension counts, sizes and '
+RULE = ('[also: negative and fractional data values, file names with several dots / other extensions, the dataset in the root or three groups deep, float32 datasets around the 15 MiB gate, the tempfile default directory watched] generator datasets of integer-valued real data (int32 / float32 / float64), any dimension counts, sizes and '
         'storage orders; default and explicit output paths (including one named temp.csv), pre-existing output files, '
         'a user file called temp.csv in the working directory, force in {F,T}, oversized (never written) datasets just above 15 MiB, between 15 and 16 MiB, at 16 MiB '
         'and beyond; the file-system model (written / skipped / refused, files afterwards) compared on every case; '
@@ -35,9 +35,18 @@ def generate(seed, tier):
                 'preexisting': rng.random() < 0.3, 'user_temp': rng.random() < 0.25,
                 'force': rng.random() < 0.4, 'oversize': i % 12 == 11,
                 'view': rng.choice(['file', 'file', 'sorted', 'toggled'])}
+        # where the file and the dataset live (the default output name is derived from both); data values that
+        # are negative / fractional (quarters)
+        case['layout'] = rng.choice([['file.h5', 'G'], ['file.h5', 'G'], ['run.2024.h5', 'G'], ['file.h5', ''],
+                                     ['file.h5', 'A/B/C'], ['data.hdf5', 'G']])
+        case['shift'] = rng.choice([0, 0, rng.randint(1, 200)])
+        case['quarters'] = ds['dtype'] in ('f8', 'f4') and rng.random() < 0.4
         if case['oversize']:
+            case['oversize_dtype'] = rng.choice(['f8', 'f8', 'f4'])
             # float64 elements: 15 MiB = 1966080 of them; just above the limit, between 15 and 16 MiB, at 16 MiB, beyond
             case['oversize_n'] = rng.choice(OVERSIZE_N)
+            if case['oversize_dtype'] == 'f4':
+                case['oversize_n'] = rng.choice([3932161, 3932200, 4000000, 4194304])     # 15 MiB of float32 = 3932160
             if case['oversize_n'] != 2200000 or rng.random() < 0.6:
                 case['force'] = False          # a forced export of such a dataset writes ~90 MB: only a few of them
         cases.append(case)
@@ -51,14 +60,19 @@ def run_impl(inp, work):
     cwd = os.path.join(work, 'cwd')
     os.makedirs(data_dir)
     os.makedirs(os.path.join(cwd, 'sub'))
-    h5path = os.path.join(data_dir, 'file.h5')
+    fname, gpath = inp.get('layout', ['file.h5', 'G'])
+    h5path = os.path.join(data_dir, fname)
+    mpath = (gpath + '/main') if gpath else 'main'
+    import tempfile
+    tmpdir = os.path.join(work, 'tmp')
+    os.makedirs(tmpdir)
     with h5py.File(h5path, 'w') as f:
-        g = f.create_group('G')
+        g = f.create_group(gpath) if gpath else f
         if inp['oversize']:
             big_n = inp.get('oversize_n', 2200000)
             ds = dict(ds, spec={'sizes': [big_n], 'rate': [0], 'labels': ['SX'], 'units': ['u'], 'values': [[]]},
                       pos={'sizes': [1], 'rate': [0], 'labels': ['PX'], 'units': ['u'], 'values': [[0]]})
-            h5 = g.create_dataset('main', shape=(1, big_n), dtype=np.float64)
+            h5 = g.create_dataset('main', shape=(1, big_n), dtype=(np.float32 if inp.get('oversize_dtype') == 'f4' else np.float64))
             h5.attrs['quantity'] = 'q'
             h5.attrs['units'] = 'u'
             pi, pv = gen.write_anc(g, 'Position', ds['pos'], False)
@@ -70,9 +84,11 @@ def run_impl(inp, work):
             for k, v in (('Position_Indices', pi), ('Position_Values', pv), ('Spectroscopic_Indices', si), ('Spectroscopic_Values', sv)):
                 h5.attrs[k] = v.ref
         else:
-            gen.write_usid(g, ds)
+            n_, m_ = gen.n_points(ds['pos']), gen.n_points(ds['spec'])
+            data = (gen.main_array(n_, m_, ds['dtype']).astype(np.float64) - inp.get('shift', 0)) / (4.0 if inp.get('quarters') else 1.0)
+            gen.write_usid(g, ds, data=data.astype({'f8': np.float64, 'f4': np.float32, 'i4': np.int32}[ds['dtype']]))
     os.chdir(cwd)
-    default_out = os.path.join(data_dir, 'file-G-main.csv')
+    default_out = os.path.join(data_dir, fname[:fname.rfind('.')] + '-' + mpath.replace('/', '-') + '.csv')
     out_path = {'default': None, 'explicit': os.path.join(cwd, 'out.csv'), 'temp.csv': 'temp.csv',
                 'sub/out.csv': os.path.join('sub', 'out.csv')}[inp['path']]
     target = default_out if out_path is None else os.path.abspath(out_path)
@@ -87,19 +103,23 @@ def run_impl(inp, work):
 
     def listing():
         out = {}
-        for d in (cwd, os.path.join(cwd, 'sub'), data_dir):
+        for d in (cwd, os.path.join(cwd, 'sub'), data_dir, tmpdir):
             for fn in sorted(os.listdir(d)):
                 p = os.path.join(d, fn)
-                if os.path.isfile(p) and not fn.endswith('.h5'):
+                if os.path.isfile(p) and not fn.endswith('.h5') and fn != fname:
                     out[os.path.relpath(p, work)] = open(p).read()[:20]
         return out
     before = listing()
     with h5py.File(h5path, 'r') as f:
-        nbytes = int(f['G/main'].dtype.itemsize) * int(np.prod(f['G/main'].shape))
-        u = USIDataset(f['G/main'], sort_dims=(inp.get('view') == 'sorted'))
+        nbytes = int(f[mpath].dtype.itemsize) * int(np.prod(f[mpath].shape))
+        u = USIDataset(f[mpath], sort_dims=(inp.get('view') == 'sorted'))
         if inp.get('view') == 'toggled':
             u.toggle_sorting()
-        r = call(u.to_csv, output_path=out_path, force=inp['force'])
+        tempfile.tempdir = tmpdir          # scratch files made in the tempfile module's default directory are watched too
+        try:
+            r = call(u.to_csv, output_path=out_path, force=inp['force'])
+        finally:
+            tempfile.tempdir = None
         pos_desc = [str(x) for x in u.pos_dim_descriptors]
         spec_desc = [str(x) for x in u.spec_dim_descriptors]
     after = listing()
@@ -139,7 +159,8 @@ def _expected_table(inp, obs):
         rows.append([''] * (P - 1) + [spec_desc[q]] + [str(int(sv[c, q])) for c in range(m)])
     rows.append(list(pos_desc) + ['DASH'] * m)
     for r in range(n):
-        rows.append([str(int(pv[r, p])) for p in range(P)] + [str(r * m + c) for c in range(m)])
+        k = 1 if inp.get('quarters') else 4           # data cells are compared as quarters
+        rows.append([str(int(pv[r, p])) for p in range(P)] + [str((r * m + c - inp.get('shift', 0)) * k) for c in range(m)])
     return rows
 
 
@@ -159,7 +180,8 @@ def _canon_table(inp, obs):
                     new.append('?' + cell)
             elif i > Q and j >= P:
                 try:
-                    new.append(str(int(round(float(cell)))))
+                    v4 = float(cell) * 4
+                    new.append(str(int(round(v4))) if abs(v4 - round(v4)) < 1e-6 else '?inexact ' + cell)
                 except ValueError:
                     new.append('?' + cell)
             else:
